@@ -99,3 +99,12 @@ fn vx_sll_protocol_type_try_from() {
     kani::cover!(supported);
     kani::cover!(!supported);
 }
+
+/// `vx::min_usize` (woven for `core::cmp::min` on usize): the smaller of the two
+#[kani::proof]
+fn vx_min_usize() {
+    let a: usize = kani::any();
+    let b: usize = kani::any();
+    let r = core::cmp::min(a, b);
+    assert!(r == if a <= b { a } else { b });
+}
